@@ -134,7 +134,7 @@ type hasher struct {
 }
 
 func newHasher(keep bool) *hasher { return &hasher{h: 17, keep: keep} }
-func (h *hasher) addU(x uint64) { h.h = (h.h*1000003 + x + 7) & mask63 }
+func (h *hasher) addU(x uint64)   { h.h = (h.h*1000003 + x + 7) & mask63 }
 func (h *hasher) big(x *big.Int) {
 	if h.keep {
 		h.raw = append(h.raw, x.String())
@@ -277,6 +277,11 @@ func observe(st *state.StateDB, keep bool) *hasher {
 	h.i(int64(next))
 	h.i(int64(len(dirty)))
 	for _, a := range dirty {
+		h.i(rk(a))
+	}
+	ad := st.VerifC08AcctDirty()
+	h.i(int64(len(ad)))
+	for _, a := range ad {
 		h.i(rk(a))
 	}
 	return h
@@ -549,22 +554,28 @@ func oracle(st *state.StateDB) clause {
 // A history is attributed to the first class it enters; the same predicates
 // are stated in Coq (Model/Proofs: pre).
 const (
-	F1 = "revert-across-delegation-update"
 	F2 = "remove-validator"
 	F3 = "list-reloads-index"
-	F4 = "copy-drops-delegation-lists"
 	F5 = "delegate-from-missing-account"
+	F6 = "isinvalid-truncation"
 )
 
+var two64 = new(big.Int).Lsh(big.NewInt(1), 64)
+
+// truncatedInvalid: IsInvalid() is true although the validator still holds tokens or stake
+func truncatedInvalid(v *state.Validator) bool {
+	return v.IsInvalid() && (v.Token.Sign() != 0 || v.Stake.Sign() != 0)
+}
+
 type runResult struct {
-	class       string // first finding class entered ("" = none)
-	undisc      bool   // caller discipline broken (raw update, over-withdraw, wrong stake, ...)
-	failures    []string
-	failClass   []string // class in force when the failure was seen
-	opsDone     int
-	panicked    bool
-	panicMsg    string
-	classes     map[string]bool
+	class     string // first finding class entered ("" = none)
+	undisc    bool   // caller discipline broken (raw update, over-withdraw, wrong stake, ...)
+	failures  []string
+	failClass []string // class in force when the failure was seen
+	opsDone   int
+	panicked  bool
+	panicMsg  string
+	classes   map[string]bool
 }
 
 func disciplinedUpd(old *state.Validator, u *Upd) bool {
@@ -589,8 +600,7 @@ func run(h *History, keepRaw bool, trace func(i int, o Op, hs *hasher, c clause)
 			res.class = c
 		}
 	}
-	taint := 0            // validator-journal length after the last delegation update
-	revVj := map[int]int{} // revision id -> validator-journal length when taken
+	revVj := map[int]int{} // valid revision ids
 	h.Hashes = nil
 	h.Panic = false
 	for i, o := range h.Ops {
@@ -628,10 +638,14 @@ func run(h *History, keepRaw bool, trace func(i int, o Op, hs *hasher, c clause)
 				}
 			}
 		case "revert":
-			if vj, ok := revVj[o.Id]; ok && vj < taint {
-				enter(F1)
-			} else if !ok {
+			if _, ok := revVj[o.Id]; !ok {
 				res.undisc = true // not a valid revision id
+			}
+		case "root", "commit":
+			for _, a := range sortedV {
+				if v := peek(st, a); v != nil && truncatedInvalid(v) {
+					enter(F6)
+				}
 			}
 		case "list":
 			ti, present := st.VerifC08TrieIndex()
@@ -645,19 +659,8 @@ func run(h *History, keepRaw bool, trace func(i int, o Op, hs *hasher, c clause)
 					enter(F3)
 				}
 			}
-		case "copy":
-			for _, d := range sortedD {
-				ac := st.VerifC08Account(d)
-				if ac.Present && !ac.HashEmpty && !ac.BlobPresent {
-					enter(F4)
-				}
-			}
 		}
 		_, vjBefore, _, nextBefore, _ := st.VerifC08Counters()
-		delegated := false
-		if o.K == "delegate" && bz(o.Amt).Sign() != 0 && peek(st, vaddrs[o.A]) != nil {
-			delegated = true
-		}
 		p, msg := w.exec(o)
 		if p {
 			h.Panic = true
@@ -672,25 +675,17 @@ func run(h *History, keepRaw bool, trace func(i int, o Op, hs *hasher, c clause)
 		}
 		res.opsDone++
 		st = w.st
-		_, vjAfter, _, _, _ := st.VerifC08Counters()
 		switch o.K {
 		case "snap":
 			revVj[nextBefore] = vjBefore
 		case "finalise", "root", "commit", "copy":
-			taint = 0
 			revVj = map[int]int{}
 		case "revert":
-			if vjAfter < taint {
-				taint = vjAfter
-			}
 			for id := range revVj {
 				if id >= o.Id {
 					delete(revVj, id)
 				}
 			}
-		}
-		if delegated {
-			taint = vjAfter
 		}
 		hs := observe(st, keepRaw)
 		h.Hashes = append(h.Hashes, hs.h)
@@ -1005,7 +1000,8 @@ func loadCorpus(dir string) []*History {
 }
 
 func gen(seed uint64, n int, outDir, corpusDir string, flavour int) {
-	r := vf.NewRng(seed)
+	// vf.NewRng states of nearby seeds lie a few steps apart on one splitmix orbit: jump to an unrelated point
+	r := vf.NewRng(vf.NewRng(seed).U64() ^ 0xC08C08C08)
 	res := vf.NewResult("C08", seed)
 	var cases []*History
 	distinct := map[string]bool{}
@@ -1131,6 +1127,51 @@ func replay(file string, verbose bool) {
 	fmt.Println("property holds on this history")
 }
 
+// reproF6 replays the Coq witness w_f6 (Witnesses.v) on the implementation: a
+// validator whose 19 components are all below one stake unit and sum to 2^64 LU
+// is IsInvalid() and gets deleted by IntermediateRoot together with its 18 delegations.
+func reproF6() {
+	w := newWorld()
+	st := w.st
+	self, _ := new(big.Int).SetString("446744073709551634", 10)
+	st.CreateValidator("v", common.Address{1}, common.Address{2}, params.RoleChancellor, vkeys[0], vkeys[0], self, big.NewInt(0), 1, 0, 0, 0)
+	one := new(big.Int).Sub(unit, big.NewInt(1))
+	var ds []common.Address
+	for i := 1; i <= 18; i++ {
+		d := common.BigToAddress(big.NewInt(int64(0x5000 + i)))
+		ds = append(ds, d)
+		st.AddBalance(d, big.NewInt(1))
+		st.UpdateDelegation(d, st.GetValidatorByMainAddr(vaddrs[0]), one)
+	}
+	v := st.GetValidatorByMainAddr(vaddrs[0])
+	fmt.Printf("before root: token=%v (2^64=%v) stake=%v delegations=%d IsInvalid=%v\n", v.Token, two64, v.Stake, len(v.Delegations), v.IsInvalid())
+	st.IntermediateRoot(true)
+	fmt.Printf("after root: validator exists=%v, delegator 1 still lists %d validators\n", st.GetValidatorByMainAddr(vaddrs[0]) != nil, st.GetCountOfDelegateTo(ds[0]))
+	if st.GetValidatorByMainAddr(vaddrs[0]) == nil && st.GetCountOfDelegateTo(ds[0]) > 0 {
+		fmt.Println("ORACLE VIOLATION: IntermediateRoot deleted a validator holding 2^64 LU and 18 delegations (IsInvalid looks at the low 64 bits only)")
+		os.Exit(1)
+	}
+}
+
+// paramsOut regenerates the constants of the working tree the model hard-codes.
+func paramsOut(out string) {
+	var sb strings.Builder
+	sb.WriteString("(* GENERATED by harness/cmd/c08 from the working tree (params, core/state). Do not edit. *)\nFrom Coq Require Import List ZArith.\nImport ListNotations.\nLocal Open Scope Z_scope.\n")
+	sb.WriteString(fmt.Sprintf("Definition repo_stake_unit : Z := %s.\n", params.StakeUint.String()))
+	var kinds []string
+	for _, r := range []params.ValidatorRole{params.RoleChancellor, params.RoleSenator, params.RoleHouse} {
+		k, _ := params.KindOfRole(r)
+		kinds = append(kinds, fmt.Sprintf("(%d, %d)", r, k))
+	}
+	sb.WriteString("Definition repo_role_kinds : list (Z * Z) := " + vf.List(kinds) + ".\n")
+	sb.WriteString(fmt.Sprintf("Definition repo_kind_all : Z := %d.\n", params.KindValidator))
+	sb.WriteString(fmt.Sprintf("Definition repo_online : Z := %d.\n", params.ValidatorOnline))
+	sb.WriteString(fmt.Sprintf("Definition repo_curd : list Z := [%d; %d; %d; %d].\n", params.Noop, params.Create, params.Update, params.Delete))
+	st := state.NewValidatorsStat()
+	sb.WriteString(fmt.Sprintf("Definition repo_stat_slots : Z := %d.\n", len(st.Kinds)+len(st.Roles)))
+	vf.WriteIfChanged(out, sb.String())
+}
+
 func main() {
 	mode := ""
 	if len(os.Args) > 1 {
@@ -1154,8 +1195,12 @@ func main() {
 		gen(*seed, *n, *out, *corpus, *flavour)
 	case "replay":
 		replay(*file, *verbose)
+	case "params":
+		paramsOut(*out)
+	case "f6":
+		reproF6()
 	default:
-		fmt.Println("usage: c08 gen|replay")
+		fmt.Println("usage: c08 gen|replay|params")
 		os.Exit(2)
 	}
 }
